@@ -63,7 +63,7 @@ def evStep (st : State) (ev : Ev) : State := { st with sys := SdnsVerif.Model.Le
 
 def step (st : State) (w : List String) : State × String :=
   match w with
-  | ["mc", "new"] | ["mnz", "new"] | ["mttl", "new"] | ["nsttl", "new"] | ["lease", "new"] | ["rem", "new"] | ["repl", "new"] | ["dpx", "new"] | ["wr", "new"] => (st, "ok")
+  | ["mc", "new"] | ["mnz", "new"] | ["mttl", "new"] | ["nsttl", "new"] | ["lease", "new"] | ["rem", "new"] | ["repl", "new"] | ["dpx", "new"] | ["wr", "new"] | ["hit", "new"] | ["glue", "new"] => (st, "ok")
   | ["ac", "new"] => ({ st with ac := {}, now := 0 }, "ok")
   | ["ac", "now", t] =>
     match parseI t with
@@ -135,6 +135,19 @@ def step (st : State) (w : List String) : State × String :=
       match replaceIfCurrent (ans hv == ans kind) cut ck with
       | some (c, k) => (st, s!"replaced=t cut={showT c} key={k}")
       | none => (st, "replaced=f none")
+    | _, _ => (st, "bad-op")
+  | ["hit", hv, stored, ttl, cut, ck] =>
+    match parseT hv, parseI stored, ttl.toInt?, parseT cut, ck.toNat? with
+    | some hv, some stored, some ttl, some cut, some ck =>
+      let m := entryBound (({} : Meta).boundCutFor hv 99) stored ttl cut ck
+      (st, s!"{showT m.cut} {m.key}")
+    | _, _, _, _, _ => (st, "bad-op")
+  | ["glue", cached, ref] =>
+    match cached.toNat?, ref.toNat? with
+    | some c, some r =>
+      let l := fun (n : Nat) => if n == 0 then ([] : List Nat) else [n]
+      let g := glueFromReferral (l c) (l r)
+      (st, s!"servers={g.1} cache={g.2}")
     | _, _ => (st, "bad-op")
   | ["wr", path, _kind, _ttl, cut, ck, _cap] =>
     -- every write entry point of the answer cache stores the cut it is handed (`storeCut`);
